@@ -69,6 +69,15 @@ var histOps = []histOp{
 	{name: "Call(tA; T1=x1 T3=z)", target: "tA", inputs: []Input{{Label{"", 1, ""}, "x1"}, {Label{"", 3, ""}, "z"}}},
 }
 
+func usesLateOp(ops []int) bool {
+	for _, o := range ops {
+		if o >= 14 {
+			return true
+		}
+	}
+	return false
+}
+
 // runHist executes the history on fresh shared objects and returns one observation
 // per operation (Redefine steps are skipped when skipRedef).
 func runHist(c HistCase, memoBody, skipRedef bool) (obs []string, onceCount int, pan string) {
@@ -302,6 +311,11 @@ func init() {
 					return
 				}
 				for o := range histOps {
+					// the operations and the once form added last (two-input converter, calls
+					// supplying / not supplying its second input) are explored to depth 3
+					if len(cur) >= 3 && (form >= 9 || o >= 14 || usesLateOp(cur)) {
+						continue
+					}
 					rec(form, append(cur, o))
 				}
 			}
@@ -322,7 +336,7 @@ func init() {
 			return fs
 		}
 	}
-	doc := "all operation sequences up to the stated depth over {9 Call option sets on 4 shared targets (two of them run-once, one without results), 3 Redefine option sets} x 9 forms of the shared run-once converter (positional/struct/pointer-struct/two outputs/failing/error-returning/named), sharing a chained converter and a failing converter"
+	doc := "all operation sequences up to the stated depth over {9 Call option sets on 4 shared targets (two of them run-once, one without results), 3 Redefine option sets} x 9 forms of the shared run-once converter (positional/struct/pointer-struct/two outputs/failing/error-returning/named); to depth 3 also a two-input form and two calls supplying / not supplying its second input, sharing a chained converter and a failing converter"
 	CaseTiers["hist-C09"] = &CaseTier{Name: "hist-C09", Doc: doc, Run: run("C09"), Replay: replay("C09")}
 	CaseTiers["hist-C11"] = &CaseTier{Name: "hist-C11", Doc: doc, Run: run("C11"), Replay: replay("C11")}
 	Plans["C09"] = map[string][]Step{
